@@ -113,7 +113,7 @@ def direct(c, dense, agg, ignore, ishape, vals, vvalid, w, wv):
     return out, sc + tuple(ishape) + kshape
 
 
-def check(res, want, shape, fmt, sentinel, scale):
+def check(res, want, shape, fmt, sentinel, scale, mask_only=False):
     if fmt == "pair":
         vals, valid = res
         vals, valid = numpy.asarray(vals), numpy.asarray(valid)
@@ -127,7 +127,9 @@ def check(res, want, shape, fmt, sentinel, scale):
     tol = 1e-9 * max(1.0, scale)
     for idx, (missing, value) in want.items():
         g = float(vals[idx])
-        if fmt == "nan":
+        if mask_only:
+            ok = (math.isnan(g) == missing) if fmt == "nan" else ((bool(valid[idx]) == (not missing)) if fmt == "pair" else True)
+        elif fmt == "nan":
             ok = math.isnan(g) if missing else (not math.isnan(g) and abs(g - float(value)) <= tol)
         elif fmt == "pair":
             ok = bool(valid[idx]) == (not missing) and (g == sentinel if missing else abs(g - float(value)) <= tol)
@@ -145,6 +147,50 @@ def aggregate(cube, mod, prefix, agg, fact, weights, ignore, rma, N=None):
 
 
 def run(c):
+    if c.get("residue"):
+        return run_residue(c)
+    return run_plain(c)
+
+
+def run_residue(c):
+    """Rounding-residue candidates: rescale the weights by non-dyadic factors (and perturb them) until the real build's
+    set of missing cells differs from the rule; mask only."""
+    import copy
+    from oracle.codec import enc
+    tried = 0
+    base_w = dec(c["w"], as_float=False) if c.get("w") is not None else None
+    # fixed non-dyadic weight sets (different groupings of the same addends round differently)
+    if isinstance(base_w, list):
+        import itertools as _it
+        pool = [Fraction(1, 10), Fraction(2, 10), Fraction(3, 10), Fraction(7, 10), Fraction(11, 10), Fraction(13, 100)]
+        for perm in _it.islice(_it.permutations(pool, len(base_w)), 0, 120, 3):
+            cc = copy.deepcopy(c)
+            cc.pop("residue")
+            cc["w"] = enc(list(perm))
+            cc["mask_only"] = True
+            tried += 1
+            r = run_plain(cc)
+            if r.get("violates"):
+                r["weights_tried"] = [str(x) for x in perm]
+                return r
+    for fac in (Fraction(1, 10), Fraction(3, 10), Fraction(7, 10), Fraction(1, 3), Fraction(1, 7), Fraction(11, 100), Fraction(1, 1000)):
+        for bump in (0, 1, 2):
+            cc = copy.deepcopy(c)
+            cc.pop("residue")
+            if base_w is not None and isinstance(base_w, list):
+                cc["w"] = enc([Fraction(x) * fac + Fraction(bump * (i + 1), 10) * fac for i, x in enumerate(base_w)])
+            elif base_w is not None:
+                cc["w"] = enc(Fraction(base_w) * fac)
+            cc["mask_only"] = True
+            tried += 1
+            r = run_plain(cc)
+            if r.get("violates"):
+                r["rescaled_weights"] = cc.get("w")
+                return r
+    return {"violates": False, "note": "residue not observable with %d weight rescalings" % tried}
+
+
+def run_plain(c):
     N, extras, dense = build(c)
     fact, vals, vvalid = fact_of(c)
     weights, w, wv = weights_of(c)
@@ -166,6 +212,6 @@ def run(c):
             out[side] = "exception %s: %s" % (type(ex).__name__, ex)
             continue
         want, shape = direct(c, dense, agg, ignore, tuple(int(x) for x in cube.interacting_shape), vals, vvalid, w, wv)
-        out[side] = check(res, want, shape, c["fmt"], c["sentinel"], scale)
+        out[side] = check(res, want, shape, c["fmt"], c["sentinel"], scale, mask_only=c.get("mask_only"))
     bad = {k: v for k, v in out.items() if v}
     return {"violates": bool(bad), "why": bad}
